@@ -386,8 +386,12 @@ let split_arrow (i : string) : (string * string) option =
   | Some k -> Some (String.sub i 0 k, String.sub i (k + n) (h - k - n))
   | None -> None
 
+(* the optional "cl:..." token (the command line actually passed) is for the harness only *)
+let drop_cl line =
+  String.concat " " (List.filter (fun t -> not (String.length t >= 3 && String.sub t 0 3 = "cl:")) (toks line))
+
 let e2e line =
-  let (attr, rev, drop, items) = tree_case line in
+  let (attr, rev, drop, items) = tree_case (drop_cl line) in
   let forest = List.map strip_args (retained drop (build_forest items)) in
   match sort_forest_dec attr rev forest with
   | Ok f -> names_s f
@@ -433,7 +437,7 @@ let e2e_check line =
   match split_arrow i with
   | None -> verdict false ("outcome:" ^ i)
   | Some (items, listing) ->
-    let (attr, rev, drop, items) = tree_case (c ^ " " ^ items) in
+    let (attr, rev, drop, items) = tree_case (drop_cl c ^ " " ^ items) in
     let orig = List.map strip_args (retained drop (build_forest items)) in
     (match (try Ok (overlay_names orig (parse_names listing)) with Mismatch _ -> Panic Other | Failure _ -> Panic Other) with
      | Ok out -> verdict (forest_sb_dec attr rev orig out) "listed-siblings-not-in-the-specified-order"
